@@ -126,41 +126,61 @@ def idx (tbl : List Nat) (v : Int) : Res Nat :=
     | some c => .ok c
     | none => .error (.panic "index out of range")
 
+/-- what one C40 / Text value makes the decoder append -/
+inductive Emit where
+  | none
+  | char (c : Nat)
+  | fnc1
+  deriving Repr, DecidableEq
+
+def Acc.emit (a : Acc) : Emit → Acc
+  | .none => a
+  | .char c => a.push c
+  | .fnc1 => a.fnc
+
 /-- append a character honouring a pending upper shift (byte arithmetic: `c + 128` wraps) -/
-def pushUp (st : CState) (a : Acc) (c : Int) : CState × Acc :=
-  if st.upper then ({ st with upper := false, shift := 0 }, a.push (toByte (c + 128)))
-  else ({ st with shift := 0 }, a.push (toByte c))
+def emitUp (st : CState) (c : Int) : CState × Emit :=
+  if st.upper then ({ upper := false, shift := 0 }, .char (toByte (c + 128)))
+  else ({ st with shift := 0 }, .char (toByte c))
 
 /-- one C40 (`text = false`) or Text (`text = true`) value: the body of `for i := 0; i < 3; i++` in
-    decodeC40Segment / decodeTextSegment -/
-def cValue (T : Tables) (text : Bool) (v : Int) (st : CState) (a : Acc) : Res (CState × Acc) :=
+    decodeC40Segment / decodeTextSegment, as a function of the shift state only -/
+def cValueCore (T : Tables) (text : Bool) (v : Int) (st : CState) : Res (CState × Emit) :=
   let basic := if text then T.textBasic else T.c40Basic
   let shift2 := if text then T.textShift2 else T.c40Shift2
   if st.shift = 0 then
-    if v < 3 then .ok ({ st with shift := v + 1 }, a)
-    else if v < basic.length then do
-      let c ← idx basic v
-      .ok (pushUp st a c)
+    if v < 3 then .ok ({ st with shift := v + 1 }, .none)
+    else if v < basic.length then
+      match idx basic v with
+      | .ok c => .ok (emitUp st c)
+      | .error e => .error e
     else .error .format
-  else if st.shift = 1 then .ok (pushUp st a v)
+  else if st.shift = 1 then .ok (emitUp st v)
   else if st.shift = 2 then
-    if v < shift2.length then do
-      let c ← idx shift2 v
-      .ok (pushUp st a c)
-    else if v = 27 then .ok ({ st with shift := 0 }, a.fnc)
-    else if v = 30 then .ok ({ st with shift := 0, upper := true }, a)
+    if v < shift2.length then
+      match idx shift2 v with
+      | .ok c => .ok (emitUp st c)
+      | .error e => .error e
+    else if v = 27 then .ok ({ st with shift := 0 }, .fnc1)
+    else if v = 30 then .ok ({ shift := 0, upper := true }, .none)
     else .error .format
   else if st.shift = 3 then
     if text then
-      if v < T.textShift3.length then do
-        let c ← idx T.textShift3 v
-        .ok (pushUp st a c)
+      if v < T.textShift3.length then
+        match idx T.textShift3 v with
+        | .ok c => .ok (emitUp st c)
+        | .error e => .error e
       else .error .format
     else
       -- C40: byte(cValue+224) / byte(cValue+96)
-      if st.upper then .ok ({ st with upper := false, shift := 0 }, a.push (toByte (v + 224)))
-      else .ok ({ st with shift := 0 }, a.push (toByte (v + 96)))
+      if st.upper then .ok ({ upper := false, shift := 0 }, .char (toByte (v + 224)))
+      else .ok ({ st with shift := 0 }, .char (toByte (v + 96)))
   else .error .format
+
+def cValue (T : Tables) (text : Bool) (v : Int) (st : CState) (a : Acc) : Res (CState × Acc) :=
+  match cValueCore T text v st with
+  | .ok (st', e) => .ok (st', a.emit e)
+  | .error e => .error e
 
 /-- decodeC40Segment / decodeTextSegment on the bytes after the latch; returns the accumulator and the
     number of bytes consumed -/
